@@ -111,6 +111,38 @@ func ContentName(content string) (string, bool) {
 				if id == "_fake" {
 					return "default", true
 				}
+				// the chain behind the leaf is part of the identity (version = leaf + ChainStep * chain variant)
+				chain := 0
+				for len(rest) > 0 {
+					var cb *pem.Block
+					cb, rest = pem.Decode(rest)
+					if cb == nil {
+						break
+					}
+					if cb.Type != "CERTIFICATE" {
+						continue
+					}
+					pemMu.Lock()
+					cid, cok := pemNames[fmt.Sprintf("%x", sha256.Sum256(pem.EncodeToMemory(cb)))]
+					pemMu.Unlock()
+					var k int
+					if !cok {
+						return "", false
+					}
+					if _, err := fmt.Sscanf(cid, "_chain%d", &k); err != nil {
+						return "", false
+					}
+					chain = k
+				}
+				if chain > 0 {
+					if i := strings.LastIndex(id, "@"); i > 0 {
+						var v int
+						if _, err := fmt.Sscanf(id[i+1:], "%d", &v); err == nil {
+							return fmt.Sprintf("%s@%d", id[:i], v+ChainStep*chain), true
+						}
+					}
+					return "", false
+				}
 				return id, true
 			}
 			return "", false
@@ -128,9 +160,13 @@ func (s *Secret) RealObject() *api.Secret {
 	o.Data = map[string][]byte{}
 	switch s.Kind {
 	case "tls":
-		p := detCert(id, s.DNSNames, false)
+		p := detCert(s.leafID(), s.DNSNames, false)
 		o.Type = api.SecretTypeTLS
 		o.Data[api.TLSCertKey] = p.crt
+		if k := s.chainVariant(); k > 0 {
+			// same leaf and key, another intermediate chain
+			o.Data[api.TLSCertKey] = append(append([]byte(nil), p.crt...), detCert(fmt.Sprintf("_chain%d", k), nil, true).crt...)
+		}
 		o.Data[api.TLSPrivateKeyKey] = p.key
 	case "ca":
 		p := detCert(id, nil, true)
